@@ -232,6 +232,7 @@ macro_rules! explorer {
                         };
                         while let Some((node, d, hist)) = q.pop_front() {
                             rep.count("states", 1);
+                            crate::tick(|| format!("{} source {:?} partial={partial} history {:?}", stringify!($modname), String::from_utf8_lossy(source), hist));
                             let (s, e) = node.span();
                             // accessor invariants in every state
                             if !(s <= e && e <= len && $is_boundary(src, s) && $is_boundary(src, e)) {
